@@ -45,7 +45,8 @@ def required_cells(tier):
     return ['functions-match', 'body-lines-equal', 'want-comments-equal', 'star-import-removed',
             'star-import-nested-removed', 'dump-compiles', 'disabled-omitted',
             'two-blocks', 'multi-line-want', 'cli', 'converted-test-runs-the-same-statements',
-            'converted-test-uses-private-module-names', 'kind:mentions_star_import', 'doctests-in-package-main', 'kind:mlstr', 'kind:deco', 'kind:await', 'kind:comment', 'kind:mlstr_trailing', 'kind:markercomment']
+            'converted-test-uses-private-module-names', 'kind:mentions_star_import', 'doctests-in-package-main', 'kind:mlstr', 'kind:deco', 'kind:await', 'kind:comment', 'kind:mlstr_trailing', 'kind:markercomment',
+            'method-named-like-a-function-behind-a-nested-class']
 
 
 AWAIT_ERRORS = ("'await' outside async function", "'async with' outside async function",
@@ -91,6 +92,7 @@ def gen_module(rng, uid):
     src = ['import asyncio', '', 'T = []', gp.PRELUDE, '']
     n = rng.randint(1, 4)
     feats = set()
+    is_method = [rng.random() < 0.3 for _ in range(n)]
     for k in range(n):
         nblocks = 2 if rng.random() < 0.2 else 1
         disabled = rng.random() < 0.15
@@ -104,11 +106,19 @@ def gen_module(rng, uid):
                     stmts = [gp.Stmt(['emit(1)'], 'emit', 1, is_expr=True)]
                     doc, info, star = '>>> emit(1)\ne1', {'wants': {0: ['e1']}, 'features': [], 'ref_T': [1]}, False
             blocks.append((stmts, doc, info, star))
-        method = rng.random() < 0.3
+        method = is_method[k]
         if method:
-            src += ['class K%d:' % k, '    def meth(self):']
+            mname = 'meth'
+            plain = [j for j in range(n) if not is_method[j]]
+            src += ['class K%d:' % k]
+            if plain and rng.random() < 0.6:
+                # a method named like a function of the module, behind a nested class
+                mname = 'func%d' % rng.choice(plain)
+                src += ['    class Options:', '        verbose = False', '']
+                feats.add('method-named-like-a-function-behind-a-nested-class')
+            src += ['    def %s(self):' % mname]
             ind = '        '
-            callname = 'K%d.meth' % k
+            callname = 'K%d.%s' % (k, mname)
         else:
             src += ['def func%d():' % k]
             ind = '    '
